@@ -1871,6 +1871,34 @@ def _effectful(s):
     return False
 
 
+_INIT_ONLY = set()
+_DYNAMIC = set()   # modules that set attributes by computed name
+_CUR_MOD = [None]
+
+
+def init_only_attrs(trees):
+    """attribute names that are stored nowhere in the package but in __init__ methods (and never through setattr): an alias of
+    `self.<such attribute>` keeps naming the same object whatever is called in between"""
+    where = {}
+    _DYNAMIC.clear()
+    for mn_, t in trees.items():
+        dynamic = False
+        for fn in ast.walk(t):
+            if isinstance(fn, (ast.FunctionDef, ast.AsyncFunctionDef)):
+                for n in _walk_same_function(fn):
+                    if isinstance(n, ast.Attribute) and isinstance(n.ctx, (ast.Store, ast.Del)):
+                        where.setdefault(n.attr, set()).add(fn.name)
+                    if isinstance(n, ast.Call) and isinstance(n.func, ast.Name) and n.func.id in ("setattr", "delattr") and not (len(n.args) >= 2 and isinstance(n.args[1], ast.Constant)):
+                        dynamic = True
+                    if isinstance(n, ast.Call) and isinstance(n.func, ast.Name) and n.func.id in ("setattr", "delattr") and len(n.args) >= 2 and isinstance(n.args[1], ast.Constant):
+                        where.setdefault(n.args[1].value, set()).add(fn.name)
+        if dynamic:
+            _DYNAMIC.add(mn_)
+    _INIT_ONLY.clear()
+    _INIT_ONLY.update(a for a, fs in where.items() if fs <= {"__init__"})
+    return _INIT_ONLY
+
+
 def explain_vars(fn):
     """substitute `v = <pure expr>` (v assigned once, in a straight statement list) into the uses that follow in the same list,
     when nothing between the definition and a use can change what the expression reads"""
@@ -1979,6 +2007,8 @@ def explain_vars(fn):
                 if len(inside) != len(uses):
                     continue
                 heap = _reads_heap(s.value)
+                if heap and isinstance(s.value, ast.Attribute) and isinstance(s.value.value, ast.Name) and s.value.value.id == "self" and s.value.attr in _INIT_ONLY and fn.name != "__init__" and _CUR_MOD[0] not in _DYNAMIC:
+                    heap = False  # an attribute that only __init__ ever sets
                 ok = True
                 if heap:
                     # no effect between the definition and the last statement that uses v; uses inside loops are excluded
@@ -2090,6 +2120,7 @@ def normalize_package(trees, known=None, passes=None):
     passes: None = all, or a string of pass numbers to run (debugging aid: VERIF_NORMALIZE=12345)"""
     stats = {}
     on = lambda k: passes is None or str(k) in passes
+    init_only_attrs(trees)
     for mn, t in trees.items():
         drop_noops(t)
         split_chained_assign(t)
@@ -2106,6 +2137,7 @@ def normalize_package(trees, known=None, passes=None):
     if on(6):
         # aliases of helpers (`match = _match_prefix`) are resolved before the helpers are unfolded
         for mn, t in trees.items():
+            _CUR_MOD[0] = mn
             for q, fn, cls, func in qualnames(t, mn):
                 explain_vars(fn)
     if on(5):
@@ -2119,6 +2151,7 @@ def normalize_package(trees, known=None, passes=None):
             # unfolding leaves aliases (`match = self._match`) and search loops (`v = X; break`) behind that hide further helpers:
             # bring what was unfolded into canonical form and unfold once more
             for mn, t in trees.items():
+                _CUR_MOD[0] = mn
                 for q, fn, cls, func in qualnames(t, mn):
                     explain_vars(fn)
                 if on(7):
@@ -2132,6 +2165,7 @@ def normalize_package(trees, known=None, passes=None):
                     stats["inline"].setdefault(k_, []).extend(st2[k_])
     for mn, t in trees.items():
         if on(6):
+            _CUR_MOD[0] = mn
             for q, fn, cls, func in qualnames(t, mn):
                 explain_vars(fn)
         if on(3):
@@ -2141,6 +2175,7 @@ def normalize_package(trees, known=None, passes=None):
         if on(7):
             canon_flow(t)
         if on(6):
+            _CUR_MOD[0] = mn
             for q, fn, cls, func in qualnames(t, mn):
                 explain_vars(fn)
         if on(3):
@@ -2670,8 +2705,60 @@ def _flag_search_loops(stmts):
     return out
 
 
+def _unroll_extend(tree):
+    """X.extend(E(a, b) for a, b in ((a1, b1), (a2, b2), ..))  ->  X.append(E(a1, b1)); X.append(E(a2, b2)); ..
+    (the table written in place or held in a local that is used for nothing else; each of a, b used once in E)"""
+    for fn in ast.walk(tree):
+        if not isinstance(fn, (ast.FunctionDef, ast.AsyncFunctionDef)):
+            continue
+        for lst in list(_stmt_lists(fn)):
+            i = 0
+            while i < len(lst):
+                s = lst[i]
+                i += 1
+                c = s.value if isinstance(s, ast.Expr) else None
+                if not (isinstance(c, ast.Call) and isinstance(c.func, ast.Attribute) and c.func.attr == "extend" and len(c.args) == 1 and isinstance(c.args[0], (ast.GeneratorExp, ast.ListComp))):
+                    continue
+                g = c.args[0]
+                if len(g.generators) != 1 or g.generators[0].ifs or g.generators[0].is_async:
+                    continue
+                it, tg = g.generators[0].iter, g.generators[0].target
+                table_def = None
+                if isinstance(it, ast.Name):
+                    defs = [a for a in _walk_same_function(fn) if isinstance(a, ast.Assign) and len(a.targets) == 1 and isinstance(a.targets[0], ast.Name) and a.targets[0].id == it.id]
+                    uses = [n for n in ast.walk(fn) if isinstance(n, ast.Name) and n.id == it.id]
+                    if len(defs) == 1 and len(uses) == 2 and defs[0] in lst and lst.index(defs[0]) == i - 2:
+                        table_def, it = defs[0], defs[0].value
+                if not isinstance(it, (ast.Tuple, ast.List)) or not (1 <= len(it.elts) <= 12):
+                    continue
+                names = [tg.id] if isinstance(tg, ast.Name) else [e.id for e in tg.elts] if isinstance(tg, ast.Tuple) and all(isinstance(e, ast.Name) for e in tg.elts) else None
+                if names is None:
+                    continue
+                if any(sum(1 for n in ast.walk(g.elt) if isinstance(n, ast.Name) and n.id == nm) > 1 for nm in names):
+                    continue
+                new, ok = [], True
+                for row in it.elts:
+                    vals = [row] if isinstance(tg, ast.Name) else list(row.elts) if isinstance(row, (ast.Tuple, ast.List)) and len(row.elts) == len(names) else None
+                    if vals is None:
+                        ok = False
+                        break
+                    e = copy.deepcopy(g.elt)
+                    for nm, v in zip(names, vals):
+                        e = _SubstName(nm, v).visit(e)
+                    call = ast.Call(func=ast.Attribute(value=copy.deepcopy(c.func.value), attr="append", ctx=ast.Load()), args=[e], keywords=[])
+                    new.append(ast.fix_missing_locations(ast.copy_location(ast.Expr(value=call), s)))
+                if not ok:
+                    continue
+                k = lst.index(s)
+                lst[k:k + 1] = new
+                if table_def is not None:
+                    lst.remove(table_def)
+                i = k + len(new) - (1 if table_def is not None else 0)
+
+
 def unroll_const_loops(tree):
     _AnyAll().visit(tree)
+    _unroll_extend(tree)
     for n in ast.walk(tree):
         for f in ("body", "orelse", "finalbody"):
             v = getattr(n, f, None)
